@@ -9,6 +9,9 @@ use crate::{
     util::*,
     RawSyntaxKind, Syntax,
 };
+#[cfg(cstree_verif)]
+use crate::verif::RwLock;
+#[cfg(not(cstree_verif))]
 use parking_lot::RwLock;
 use std::{
     cell::UnsafeCell,
@@ -214,12 +217,6 @@ impl<S: Syntax, D> SyntaxNode<S, D> {
         for i in 0..data.children.len() {
             // safety: `child_locks` and `children` are pre-allocated to the same length
             let _write = unsafe { data.child_locks.get_unchecked(i).write() };
-            #[cfg(cstree_verif)]
-            let _scope = crate::verif::LockScope::new(
-                unsafe { data.child_locks.get_unchecked(i) } as *const _ as usize,
-                true,
-                crate::verif::LockKind::Slot,
-            );
             // safety: protected by the write lock
             let slot = unsafe { &mut *data.children.get_unchecked(i).get() };
             let mut child_data = None;
@@ -427,11 +424,7 @@ impl<S: Syntax, D> SyntaxNode<S, D> {
     /// Stores custom data for this node.
     /// If there was previous data associated with this node, it will be replaced.
     pub fn set_data(&self, data: D) -> Arc<D> {
-        #[cfg(cstree_verif)]
-        crate::verif::point(crate::verif::Point::Lock { addr: &self.data().data as *const _ as usize, write: true, what: crate::verif::LockKind::Data });
         let mut ptr = self.data().data.write();
-        #[cfg(cstree_verif)]
-        let _scope = crate::verif::LockScope::new(&self.data().data as *const _ as usize, true, crate::verif::LockKind::Data);
         let data = Arc::new(data);
         *ptr = Some(Arc::clone(&data));
         data
@@ -440,11 +433,7 @@ impl<S: Syntax, D> SyntaxNode<S, D> {
     /// Stores custom data for this node, but only if no data was previously set.
     /// If it was, the given data is returned unchanged.
     pub fn try_set_data(&self, data: D) -> Result<Arc<D>, D> {
-        #[cfg(cstree_verif)]
-        crate::verif::point(crate::verif::Point::Lock { addr: &self.data().data as *const _ as usize, write: true, what: crate::verif::LockKind::Data });
         let mut ptr = self.data().data.write();
-        #[cfg(cstree_verif)]
-        let _scope = crate::verif::LockScope::new(&self.data().data as *const _ as usize, true, crate::verif::LockKind::Data);
         if ptr.is_some() {
             return Err(data);
         }
@@ -456,40 +445,20 @@ impl<S: Syntax, D> SyntaxNode<S, D> {
     /// Returns the data associated with this node, if any.
     #[allow(clippy::useless_asref)] // make `Arc::clone` explicit
     pub fn get_data(&self) -> Option<Arc<D>> {
-        #[cfg(cstree_verif)]
-        crate::verif::point(crate::verif::Point::Lock { addr: &self.data().data as *const _ as usize, write: false, what: crate::verif::LockKind::Data });
         let ptr = self.data().data.read();
-        #[cfg(cstree_verif)]
-        let _scope = crate::verif::LockScope::new(&self.data().data as *const _ as usize, false, crate::verif::LockKind::Data);
         (*ptr).as_ref().map(Arc::clone)
     }
 
     /// Removes the data associated with this node.
     pub fn clear_data(&self) {
-        #[cfg(cstree_verif)]
-        crate::verif::point(crate::verif::Point::Lock { addr: &self.data().data as *const _ as usize, write: true, what: crate::verif::LockKind::Data });
         let mut ptr = self.data().data.write();
-        #[cfg(cstree_verif)]
-        let _scope = crate::verif::LockScope::new(&self.data().data as *const _ as usize, true, crate::verif::LockKind::Data);
         *ptr = None;
     }
 
     #[inline]
     fn read(&self, index: usize) -> Option<SyntaxElementRef<'_, S, D>> {
         // safety: children are pre-allocated and indices are determined internally
-        #[cfg(cstree_verif)]
-        crate::verif::point(crate::verif::Point::Lock {
-            addr:  unsafe { self.data().child_locks.get_unchecked(index) } as *const _ as usize,
-            write: false,
-            what:  crate::verif::LockKind::Slot,
-        });
         let _read = unsafe { self.data().child_locks.get_unchecked(index).read() };
-        #[cfg(cstree_verif)]
-        let _scope = crate::verif::LockScope::new(
-            unsafe { self.data().child_locks.get_unchecked(index) } as *const _ as usize,
-            false,
-            crate::verif::LockKind::Slot,
-        );
         #[cfg(cstree_verif)]
         crate::verif::note(crate::verif::Note::SlotAccess { node: self.data.as_ptr() as usize, index, write: false });
         // safety: mutable accesses to the slot only occur below and have to take the lock
@@ -499,19 +468,7 @@ impl<S: Syntax, D> SyntaxNode<S, D> {
 
     fn try_write(&self, index: usize, elem: SyntaxElement<S, D>) {
         // safety: children are pre-allocated and indices are determined internally
-        #[cfg(cstree_verif)]
-        crate::verif::point(crate::verif::Point::Lock {
-            addr:  unsafe { self.data().child_locks.get_unchecked(index) } as *const _ as usize,
-            write: true,
-            what:  crate::verif::LockKind::Slot,
-        });
         let _write = unsafe { self.data().child_locks.get_unchecked(index).write() };
-        #[cfg(cstree_verif)]
-        let _scope = crate::verif::LockScope::new(
-            unsafe { self.data().child_locks.get_unchecked(index) } as *const _ as usize,
-            true,
-            crate::verif::LockKind::Slot,
-        );
         #[cfg(cstree_verif)]
         crate::verif::note(crate::verif::Note::SlotAccess { node: self.data.as_ptr() as usize, index, write: true });
         // safety: we are the only writer and there are no readers as evidenced by the write lock
